@@ -208,6 +208,9 @@ def run(cx):
     # ---------------------------------------------------------------- A1 only authenticated, non-synthesised NSEC/NSEC3 enter the proof
     C06.nsec_not_wildcard_expanded(cx, 'C08.A1')
 
+    # ---------------------------------------------------------------- B1 the type bit map decoder
+    C09.type_bitmap(cx, 'C08.B1')
+
     # ---------------------------------------------------------------- H helper semantics the guards above rely on (rules/helpers.py)
     helpers.check(cx, 'C08.H', ['Name::zone_of', 'Name::base_name', 'Name::trim_to', 'Name::is_wildcard', 'RecordTypeSet::contains', 'NSEC::type_set'])
 
